@@ -36,8 +36,11 @@ pub fn thread_init() {
         let x = (n as u128 + 1).wrapping_mul(0x9E37_79B9_7F4A_7C15_F39C_C060_5CED_C835);
         x ^ (x >> 61)
     })));
-    // library `spawn` needs a tokio context; the runtime is only entered, never driven
+    // library `spawn` needs a tokio context; the runtime is only entered, never driven. Its time driver is enabled
+    // so that library code may CREATE timers (sleep, timeout) without panicking - but nobody turns that driver: under
+    // this executor a library timer never fires (the executor has no clock; see DESIGN.md 0.5, round 5)
     let rt = tokio::runtime::Builder::new_current_thread()
+        .enable_time()
         .build()
         .expect("tokio runtime");
     let rt: &'static tokio::runtime::Runtime = Box::leak(Box::new(rt));
